@@ -68,6 +68,9 @@ type BFile struct {
 	CRC            bool
 	Pad            int               // trailing pad bytes on every extensible record
 	SummaryUnknown map[string][]Unknown // unknown records inserted before the named summary group ("" = at the end of the summary)
+	// StatsNoPerChannel: the statistics record carries an empty channel_message_counts map, which the specification
+	// defines as "this statistic is not available" (the other statistics are exact)
+	StatsNoPerChannel bool
 	// Within: order of the records inside every summary group: "" / "asc" as in the data section, "rev" reversed,
 	// "rot" rotated by one (the specification does not prescribe any)
 	Within string
@@ -304,6 +307,9 @@ func Build(f *BFile) (*Built, error) {
 				if n, ok := per[c.ID]; ok {
 					pc = append(pc, ChOff{c.ID, n})
 				}
+			}
+			if f.StatsNoPerChannel {
+				pc = nil
 			}
 			w.Rec(op, pad(BodyStatistics(nmsgs, uint16(len(f.Schemas)), uint32(len(f.Channels)), uint32(len(atts)), uint32(len(mds)), uint32(len(chunks)), minT, maxT, pc), f.Pad))
 		case "ChunkIndex":
